@@ -5,7 +5,7 @@ import common
 from common import ROOT, VMON, sg, new_report, add_violation, count
 from lspclient import Lsp
 
-SRC_LINES = ['foo(1, b);', 'foo(a);', 'let x = foo(2, 3);', 'bar(4, "é🦀", 5);', 'foo(\n  6,\n  c\n);', 'baz([7, 8], 9)', 'foo(d, 10) // tail']
+SRC_LINES = ['é = "ü"; foo(1, b);', '/* 日本 */ foo(a);', 'let y = foo("🦀", 3); // ñ', 'ｆ("ß", 11); foo(c, 12);', 'foo(1, b);', 'foo(a);', 'let x = foo(2, 3);', 'bar(4, "é🦀", 5);', 'foo(\n  6,\n  c\n);', 'baz([7, 8], 9)', 'foo(d, 10) // tail']
 FIXES = [
     # (rule body, fix) — string form, object form with expansions, trailing punctuation, multi-line replacement
     ({'pattern': 'foo($A, $B)'}, 'bar($B, $A)'),
@@ -69,6 +69,14 @@ def one_case(rep, work, k, rule, text, lib):
     if any((s, e) != n for (s, e, _), n in zip(L, nodes)) or any('\n' in t for _, _, t in L):
         rep['_nt'].add(hashlib.sha1((yaml + text).encode()).hexdigest())
     expanded = isinstance(rule['fix'], dict)
+
+    def lsp_class(got):
+        # the known LSP deviation: the server uses the matched node's range and ignores expandStart/expandEnd.
+        # Only a mismatch that this explains (every offered range is the unexpanded node range) gets that signature.
+        if not expanded:
+            return 'plain'
+        node_set = set(nodes)
+        return 'expanded' if got and all((s, e) in node_set for s, e, _ in got) else 'expanded-other'
     # 2. scan --json
     rc, out, err = sg(['scan', '-r', 'rules/r.yml', '--json=stream', 'a.js'], cwd=d)
     try:
@@ -123,7 +131,7 @@ def one_case(rep, work, k, rule, text, lib):
         starts = line_table(data)
         D = sorted((pos_to_off(data, starts, x['range']['start']), pos_to_off(data, starts, x['range']['end']), (x.get('data') or {}).get('fixed')) for x in diags)
         if D != sorted(L):
-            add_violation(rep, f'C08/lsp-diagnostic-vs-library/{"expanded" if expanded else "plain"}', f'diagnostics offer {D[:3]}, the library edit is {sorted(L)[:3]}', replay)
+            add_violation(rep, f'C08/lsp-diagnostic-vs-library/{lsp_class(D)}', f'diagnostics offer {D[:3]}, the library edit is {sorted(L)[:3]}', replay)
         r = l.request('textDocument/codeAction', {'textDocument': {'uri': uri}, 'range': {'start': {'line': 0, 'character': 0}, 'end': {'line': 999, 'character': 0}}, 'context': {'diagnostics': diags}})
         if r and r.get('result'):
             Q = []
@@ -131,7 +139,7 @@ def one_case(rep, work, k, rule, text, lib):
                 for ed in (a.get('edit', {}).get('changes', {}) or {}).get(uri, []):
                     Q.append((pos_to_off(data, starts, ed['range']['start']), pos_to_off(data, starts, ed['range']['end']), ed['newText']))
             if sorted(Q) != sorted(L):
-                add_violation(rep, f'C08/lsp-quickfix-vs-library/{"expanded" if expanded else "plain"}', f'quick-fixes {sorted(Q)[:3]} vs library {sorted(L)[:3]}', replay)
+                add_violation(rep, f'C08/lsp-quickfix-vs-library/{lsp_class(Q)}', f'quick-fixes {sorted(Q)[:3]} vs library {sorted(L)[:3]}', replay)
         r = l.request('textDocument/codeAction', {'textDocument': {'uri': uri}, 'range': {'start': {'line': 0, 'character': 0}, 'end': {'line': 0, 'character': 1}}, 'context': {'diagnostics': [], 'only': ['source.fixAll']}})
         if r and r.get('result'):
             A = []
@@ -145,7 +153,7 @@ def one_case(rep, work, k, rule, text, lib):
                     continue
                 want_all.append((s, e, t)); last = e
             if sorted(A) != want_all:
-                add_violation(rep, f'C08/lsp-fixall-vs-library/{"expanded" if expanded else "plain"}', f'fix-all {sorted(A)[:3]} vs non-overlapping library edits {want_all[:3]}', replay)
+                add_violation(rep, f'C08/lsp-fixall-vs-library/{lsp_class(A)}', f'fix-all {sorted(A)[:3]} vs non-overlapping library edits {want_all[:3]}', replay)
     finally:
         l.close()
     shutil.rmtree(d, ignore_errors=True)
@@ -192,7 +200,7 @@ def run(ctx):
     rep = new_report(); rep['_nt'] = set()
     work = ctx.workdir()
     rng = ctx.rng
-    n = 400 if ctx.thorough else 40
+    n = 2000 if ctx.thorough else 200
     cases = []
     for k in range(n):
         body, fix = FIXES[k % len(FIXES)]
@@ -200,8 +208,23 @@ def run(ctx):
         text = '\n'.join(rng.choice(SRC_LINES) for _ in range(rng.randint(1, 5))) + '\n'
         cases.append((rule, text))
     libs = lib_edits([{'lang': 'JavaScript', 'source': t, 'rule': json.dumps(r)} for r, t in cases])
-    for k, ((rule, text), lib) in enumerate(zip(cases, libs)):
-        one_case(rep, work, k, rule, text, lib)
+    import concurrent.futures as cf
+
+    def one(args):
+        k, ((rule, text), lib) = args
+        sub = new_report(); sub['_nt'] = set()
+        one_case(sub, work, k, rule, text, lib)
+        return sub
+    with cf.ThreadPoolExecutor(max_workers=common.NCPU) as ex:
+        subs = list(ex.map(one, enumerate(zip(cases, libs))))
+    for sub in subs:
+        rep['_nt'] |= sub.pop('_nt')
+        rep['evaluations'] += sub['evaluations']; rep['inconclusive'] += sub['inconclusive']
+        for kk, v in sub['counters'].items():
+            count(rep, kk, v)
+        for v in sub['violations']:
+            add_violation(rep, v['signature'], v['what'], v['replay'])
+        rep['notes'] += [x for x in sub['notes'] if x not in rep['notes']][:5]
     rep['distinct_nontrivial'] = len(rep.pop('_nt'))
     rep['samples'].append({'rule': {'kind': 'number', 'inside': {'kind': 'arguments'}}, 'fix': {'template': '', 'expandEnd': {'regex': '^,$'}}, 'text': 'foo(1, b);\n', 'observations': ['library make_edit', 'scan --json', 'scan -U', 'test -U snapshot', 'lsp diagnostics / quick-fix / fix-all']})
     ctx.cleanup()
